@@ -65,7 +65,7 @@ func nCases(tier string) int {
 func init() {
 	fw.Register(&fw.Prop{
 		ID: "C10",
-		Rule: "cases: (1) exhaustive sweep of the width equation — every combination of 6 margin-left x 6 margin-right x 4 width x 3 padding x 2 border x 3 min-width x 3 max-width x 2 box-sizing value classes, 36 sibling boxes per document (864 documents, 31 104 boxes); " +
+		Rule: "cases: (1) exhaustive sweep of the width equation — every combination of 6 margin-left x 6 margin-right x 4 width x 3 padding x 2 border x 3 min-width x 3 max-width x 2 box-sizing value classes, 36 sibling boxes per document (432 documents, 15 552 boxes); " +
 			"(2) random trees of 1–12 block elements (depth <= 5) below html/body with margins (auto, lengths, negative, %), paddings, borders, width/height (auto, px, %), min/max-width/height, box-sizing, overflow:hidden / display:flow-root, text runs of 1–2 Ahem lines (leaf content or anonymous blocks between block children), absolutely positioned noise children, on one page taller than any content; trees are repaired before use so that they contain neither a known-defect trigger (coverage key open_defects) nor, outside the thorough tier's report-only bucket (every 8th case), a point CSS 2.1 leaves open. " +
 			"Every in-flow block box of the page is checked against the reference-free invariants; every generated element's box is compared with the model (7 horizontal values + border-box x, 6 vertical values, height, border-box y, line boxes of its text runs). " +
 			"A case is non-trivial when the layout produced exactly one page, every generated element was found as a block box and compared, and at least 3 elements were compared; distinct = distinct input.",
@@ -105,7 +105,11 @@ func init() {
 			if tier == "thorough" {
 				k = 10
 			}
-			return map[string]int64{
+			fl := map[string]int64{}
+			if tier == "thorough" {
+				fl["open_point_cases_compared"] = 3000
+			}
+			for name, v := range map[string]int64{
 				"boxes_compared":            60000 * k,
 				"inv_boxes":                 60000 * k,
 				"inv_sibling_pairs":         2500 * k,
@@ -131,7 +135,10 @@ func init() {
 				"v_text_runs":               15000 * k,
 				"v_abs_noise":               3000 * k,
 				"v_min_max_height_applied":  2000 * k,
+			} {
+				fl[name] = v
 			}
+			return fl
 		},
 		Assumptions: []string{
 			"left-to-right documents only; no floats, clearance, tables, relative positioning, fragmentation (one page taller than the content)",
@@ -295,7 +302,7 @@ func check(raw json.RawMessage) fw.Result {
 	}
 	compared := 0
 	missing := 0
-	for _, L := range m.Lays {
+	for _, L := range m.Post {
 		fd, ok := byID[L.Node.ID]
 		if !ok {
 			missing++
@@ -391,6 +398,9 @@ func check(raw json.RawMessage) fw.Result {
 			}
 		}
 		countEvidence(&res, L, ambiguous == "")
+	}
+	if ambiguous != "" && in.ReportOnly {
+		res.Count("open_point_cases_compared", 1)
 	}
 	if ambiguous != "" && !in.ReportOnly {
 		report("open point, vertical geometry not compared: " + ambiguous)
